@@ -856,6 +856,8 @@ package websocket
 //@ let pwset := extres("(*net/url.Userinfo).Password", 1, hpd.proxyURL.User)
 //@ assert at call:forwardDial#1[C18.firsthop]: arg2 == network && arg3 == hp
 //@ assert at call:Write#1[C18.connect]: arg1 == fc && streq(arg0.Method, "CONNECT") && arg0.Host == addr && arg0.URL.Opaque == addr
+//@ bind werr after call:Write#1
+//@ assert at call:ReadResponse#1[C18.connect]: werr == nil
 //@ assert at call:Write#1[C18.auth]: imp(user != nil && pwset, haskey(arg0.Header, "Proxy-Authorization"))
 //@ assert at call:Write#1[C18.noauth]: imp(user == nil || !pwset, !haskey(arg0.Header, "Proxy-Authorization"))
 //@ assert at return#1[C16.dialerr]: conn == nil && err != nil
